@@ -1,7 +1,7 @@
 #!/venv/bin/python
 """debug helper: run N seeds of a property and print one shrunk example per violation class"""
 import sys, os, json
-sys.path.insert(0, '/verif')
+sys.path.insert(0, os.path.dirname(os.path.dirname(os.path.abspath(__file__))))
 os.environ.setdefault("PYTHONHASHSEED", "0")
 from ppsim.core import env; env.setup()
 from ppsim.core import runner, shrink
